@@ -145,7 +145,8 @@ def observe(run, text, with_input=True, all_groups=False):
             if g.use_in_calculations() or is_ion or g.titratable or all_groups:
                 gl.append(group_record(g, idx))
             else:
-                others.append([idx.gid(g.atom), g.type, 1 if g.titratable else 0])
+                scored = 1 if (abs(g.energy_volume) > 1e-12 or abs(g.energy_local) > 1e-12 or g.num_volume) else 0
+                others.append([idx.gid(g.atom), g.type, 1 if g.titratable else 0, scored])
         rec["G"][name] = gl
         rec["others"][name] = others
     if with_input:
